@@ -239,6 +239,7 @@ type UnitResult struct {
 	Key        string
 	PkgPath    string
 	Obls       []*Obl
+	Mismatch   string // non-empty: loop/assert clauses did not fit; verified without them
 	Outside    string // non-empty: function left the supported subset
 	Warnings   []string
 	Abstracted []string
@@ -260,7 +261,29 @@ func (e *Engine) newUnit(p *packages.Package, ct *Contract) *Unit {
 	return u
 }
 
-func (e *Engine) verifyFunc(p *packages.Package, ct *Contract) (res *UnitResult) {
+// verifyFunc verifies one function against its contract. If the contract's loop clauses or
+// in-body assertions no longer fit the function (the function was restructured), the function
+// is verified again with those clauses dropped, so that its pre/postconditions, frame and
+// safety obligations are still generated under their stable names.
+func (e *Engine) verifyFunc(p *packages.Package, ct *Contract) *UnitResult {
+	res := e.verifyFunc1(p, ct)
+	if res.Outside == "" || (len(ct.Loops) == 0 && len(ct.CallAsserts) == 0 && len(ct.ReturnAsserts) == 0) {
+		return res
+	}
+	stripped := *ct
+	stripped.Loops = map[int]*LoopSpec{}
+	stripped.CallAsserts = nil
+	stripped.ReturnAsserts = nil
+	res2 := e.verifyFunc1(p, &stripped)
+	if res2.Outside != "" {
+		return res
+	}
+	res2.Mismatch = res.Outside
+	res2.Warnings = append(res2.Warnings, "loop/assert clauses of the contract no longer fit the function ("+res.Outside+"); verified without them")
+	return res2
+}
+
+func (e *Engine) verifyFunc1(p *packages.Package, ct *Contract) (res *UnitResult) {
 	u := e.newUnit(p, ct)
 	u.name = p.Types.Name() + "." + ct.Key
 	u.curFnKey = p.PkgPath + "." + ct.Key
